@@ -376,6 +376,7 @@ type verifyOut struct {
 	Post  map[string]string `json:"post"`
 	Ops   int               `json:"ops"`
 	Idle  bool              `json:"idle"` // no commit between recovery and the Close/Open that follows
+	Died  bool              `json:"died"` // ... and no Close either: the recovered incarnation died idle
 }
 
 // postStride: the recovery child commits to every postStride-th key (every second key, fewer for
@@ -437,6 +438,7 @@ func crashVerifyMain(args []string) int {
 	// the recovered store accepts and retains further commits
 	// (every second key only: the others must keep the value they had right after recovery)
 	out.Idle = mode == "idle" || mode == "idlecrash"
+	out.Died = mode == "idlecrash"
 	for i, k := range p.Keys {
 		if i%postStride(p) != 0 || out.Idle {
 			continue
@@ -624,6 +626,10 @@ func judgeRecovery(st ackState, v verifyOut, p crashProgram, atomic bool) []judg
 		a, aok := v.State[k]
 		b, bok := v.Post[k]
 		if a != b || aok != bok {
+			if v.Idle && v.Died {
+				out = append(out, judgement{"C03", "recovered-value-lost-after-idle-crash", fmt.Sprintf("key %q read (%q, found=%v) right after recovery but (%q, found=%v) after that incarnation died without committing anything and the directory was opened again", k, a, aok, b, bok)})
+				break
+			}
 			if v.Idle {
 				out = append(out, judgement{"C03", "recovered-value-lost-after-close", fmt.Sprintf("key %q read (%q, found=%v) right after recovery but (%q, found=%v) after Close and Open, with no commit in between", k, a, aok, b, bok)})
 				break
